@@ -165,6 +165,9 @@ def judge_concurrent(sim, stats, kind, msgs, pause_plan, stagger, acc, fast_of):
         acc.violation("packets-of-concurrent-sends-interleaved", f"{kind}: packets of concurrent send() calls interleave on the wire (sources in wire order: {runs[:12]}...)", w)
     if len(sim.status) != 2 or sim.status[0] != "CONNECTED":
         acc.violation("state-disturbed-by-send", f"{kind}: status trace {sim.status} around plain sends", w)
+    if paused and len(msgs) <= 4:
+        acc.sample({"client": kind, "messages": [[m.PGN, m.source] for m in msgs], "pause_plan": list(pause_plan)[:16], "stagger": list(stagger),
+                    "sources_in_wire_order": order[:40], "status_trace": sim.status}, cap=6)
     for m in msgs:
         got = [d for s, d in pk if s == m.source]
         want = reference_packets(kind, m)
